@@ -17,8 +17,11 @@ from pathlib import Path
 from . import tlc
 
 VERIF = Path(__file__).resolve().parent.parent
-EVIDENCE = VERIF / "evidence"
-REPLAYS = VERIF / "replays"
+# VERIF_OUT redirects evidence and replay files (used when a seeded change is evaluated against a scratch
+# tree, so that the committed evidence always comes from /repo itself)
+_OUT = Path(os.environ["VERIF_OUT"]) if os.environ.get("VERIF_OUT") else VERIF
+EVIDENCE = _OUT / "evidence"
+REPLAYS = _OUT / "replays"
 KNOWN = VERIF / "known_findings.jsonl"
 
 ASSUMPTIONS = [
